@@ -265,7 +265,7 @@ func init() {
 		return nil
 	})
 	reg(rtPkg+".Observe", func(ex *exec, fr *frame, fn *ssa.Function, a []value) value {
-		ex.observe = append(ex.observe, strArg(a[0])+"="+toString(a[1]))
+		ex.observe = append(ex.observe, obsRec{strArg(a[0]), a[1]})
 		return nil
 	})
 	reg(rtPkg+".ExpectPanic", func(ex *exec, fr *frame, fn *ssa.Function, a []value) value {
